@@ -28,6 +28,7 @@ args = sys.argv[1:]
 i = args.index("-o")
 target = args[i + 1]
 real = os.path.join(ctrl, tag + ".real.so")
+open(os.path.join(ctrl, tag + ".ccpid"), "w").write(str(os.getpid()))
 args2 = list(args); args2[i + 1] = real
 def at(k):
     open(os.path.join(ctrl, "%%s.at.%%d" %% (tag, k)), "w").write(target)
@@ -164,6 +165,24 @@ class World:
                     pass
         return out
 
+    def fail_build(self, p, kind, timeout=40):
+        """Make the paused build of process p FAIL (the builder unwinds through its clean-up code) instead of
+        destroying the builder: 'compiler' kills only the compiler subprocess, 'sigint' sends Ctrl-C to the
+        builder's process group."""
+        try:
+            if kind == "compiler":
+                os.kill(int(open(os.path.join(self.ctrl, p.tag + ".ccpid")).read()), signal.SIGKILL)
+            else:
+                os.killpg(p.popen.pid, signal.SIGINT)
+        except Exception:  # noqa
+            pass
+        t0 = time.time()
+        while p.popen.poll() is None and time.time() - t0 < timeout:
+            time.sleep(0.005)
+        if p.popen.poll() is None:
+            os.killpg(p.popen.pid, signal.SIGKILL)
+        self.collect(p)
+
     def kill_all(self):
         for p in self.procs.values():
             if p.popen is not None and p.popen.poll() is None:
@@ -184,7 +203,7 @@ def final_name(model_path):
     return os.path.basename(kerneldll.dll_path(info.id + "_" + generate.tag_source(source), np.dtype("d")))
 
 
-def run_schedule(root, idx, sched, nproc):
+def run_schedule(root, idx, sched, nproc, kill_kind="sigkill"):
     """Execute one schedule with real processes.  Returns observation dict."""
     w = World(root, idx)
     fname = final_name(w.model_path)
@@ -227,6 +246,12 @@ def run_schedule(root, idx, sched, nproc):
                 continue
         # crash: every process still paused is killed where it stands
         killed = [p.tag for p in w.procs.values() if p.stage in (0, 1, 2)]
+        aborted = []
+        if kill_kind != "sigkill":
+            for p in list(w.procs.values()):
+                if p.stage in (0, 1, 2):
+                    aborted.append(int(p.tag[1:]))
+                    w.fail_build(p, kill_kind)
         w.kill_all()
         ref = w.reference()
         after_kill = w.final_state(fname, ref)
@@ -239,7 +264,7 @@ def run_schedule(root, idx, sched, nproc):
         listing = sorted(os.listdir(w.cache))
         outputs = sorted(os.path.basename(x) for x in w.outputs_seen)
         results = {t: p.result for t, p in w.procs.items() if p.result is not None}
-        return dict(sched=list(sched), model_sched=model_sched, trace=trace, loaded=obs_loaded, killed=killed,
+        return dict(sched=list(sched), model_sched=model_sched, trace=trace, loaded=obs_loaded, killed=killed, kill_kind=kill_kind, aborted=aborted,
                     after_kill=after_kill, recover_ok=bool(r.result and r.result["ok"]), recover=r.result,
                     listing=listing, compiler_outputs=outputs, final_name=fname, results=results)
     finally:
@@ -288,17 +313,28 @@ def main(run):
         rng.shuffle(b)
         scheds.append((tuple(b[:9]), 3))
     obs = []
+    # how the builders that are still paused at the end of a schedule die: destroyed (SIGKILL of the whole
+    # process group), or their build FAILS - the compiler alone is killed, or the group gets Ctrl-C - so that
+    # the builder unwinds through its clean-up code
+    kinds = ["sigkill"] * len(scheds)
+    extra = [((1, 1), 1, "compiler"), ((1, 1), 1, "sigint"), ((1, 1, 1), 1, "compiler"), ((1,), 1, "sigint"),
+             ((1, 1, 2, 2), 2, "compiler"), ((1, 2, 1, 2, 2), 2, "sigint")]
+    if thorough:
+        for s_, n_ in list(scheds)[5:45]:
+            extra.append((tuple(s_[:rng.randint(2, max(2, len(s_) - 1))]), n_, rng.choice(["compiler", "sigint"])))
+    for s_, n_, k_ in extra:
+        scheds.append((s_, n_)); kinds.append(k_)
     # run several worlds in parallel threads (each world has its own processes)
     from concurrent.futures import ThreadPoolExecutor
     with ThreadPoolExecutor(max_workers=6) as ex:
-        futs = [ex.submit(run_schedule, root, i, s, n) for i, (s, n) in enumerate(scheds)]
+        futs = [ex.submit(run_schedule, root, i, s, n, kinds[i]) for i, (s, n) in enumerate(scheds)]
         for f in futs:
             obs.append(f.result())
     stats = dict(schedules=len(obs), processes=sum(len(set(o["sched"])) for o in obs), kills=sum(len(o["killed"]) for o in obs),
                  kill_stages={}, lookup_hits=0)
     distinct = set()
     for o in obs:
-        distinct.add(tuple(o["sched"]))
+        distinct.add((tuple(o["sched"]), o["kill_kind"]))
         desc = dict(o)
         # model-free oracle: the property itself
         if 1 in o["trace"] or o["after_kill"] == 1:
@@ -329,6 +365,21 @@ def main(run):
             for i in vals[0]:
                 o = obs[i]
                 run.add(Finding("C18:corr", "schedule %s: observed history differs from the rename-protocol model (final-name trace %s, loads %s)" % (o["sched"], o["trace"], o["loaded"]), dict(o)))
+    for o in obs:
+        stats["kill_stages"][o["kill_kind"]] = stats["kill_stages"].get(o["kill_kind"], 0) + len(o["killed"])
+    unw = [o for o in obs if o["kill_kind"] != "sigkill"]
+    if unw and not run.proof_broken():
+        body = ";\n".join("(%s, %s, %d%%nat)" % (nlist(o["model_sched"]), nlist(o["aborted"]), o["after_kill"]) for o in unw)
+        text = ("From Coq Require Import List Arith.\nImport ListNotations.\nFrom SM Require Import C18.Model C18.Exec.\n"
+                "Eval vm_compute in (check_unwinds [\n%s\n]).\n" % body)
+        rc, vals, err = common.run_coq_shards([text], run.scratch.sub("coqu"), prefix="c18u")[0]
+        if rc != 0 or not vals:
+            run.add(Finding("corr:C18:coq", "unwinding correspondence failed to evaluate: %s" % err[-300:], {"correspondence": "C18.Exec.check_unwinds", "stderr": err[-1500:]}, no_input=True))
+        else:
+            for i in vals[0]:
+                o = unw[i]
+                run.add(Finding("C18:corr-unwind", "schedule %s followed by failing builds (%s) of %s: the final cache name holds %s, the model (clean-up removes the temporary) says otherwise" % (
+                    o["sched"], o["kill_kind"], o["aborted"], {0: "nothing", 1: "a PARTIAL library", 2: "a complete library"}[o["after_kill"]]), dict(o)))
     run.coverage.update(evaluations=len(obs), distinct_nontrivial=len(distinct), traces_validated_against_impl=traces,
                         input_distribution=stats, exhaustive=bool(thorough))
     run.assumptions += ["POSIX rename (os.replace) is atomic and dlopen of a complete ELF file succeeds",
